@@ -270,7 +270,7 @@ def extract_access():
     for a in CA:
         for b in CA:
             r = combine[(a, b)]
-            L.append(f"  | {CA_LEAN[a]}, {CA_LEAN[b]} => " + ("none" if r is None else f"some {CA_LEAN[r]}"))
+            L.append(f"  | {CA_LEAN[a]}, {CA_LEAN[b]} => " + ("Option.none" if r is None else f"Option.some {CA_LEAN[r]}"))
     L.append("")
     L.append("/-- the arm table of `ComponentAccess::not` -/")
     L.append("def negate : CaseAccess → CaseAccess")
@@ -297,7 +297,7 @@ def extract_access():
     for a in AC:
         for b in AC:
             r = join[(a, b)]
-            L.append(f"  | {AC_LEAN[a]}, {AC_LEAN[b]} => " + ("none" if r is None else f"some {AC_LEAN[r]}"))
+            L.append(f"  | {AC_LEAN[a]}, {AC_LEAN[b]} => " + ("Option.none" if r is None else f"Option.some {AC_LEAN[r]}"))
     L.append("")
     L.append("end Evenio")
     return "\n".join(L) + "\n"
